@@ -306,7 +306,7 @@ def run(ctx):
                 ("assign-center-only", None), ("remove", 101), ("remove", 102), ("remove-list", (101, 102)), ("move", 101)]
     depth = ctx.pick(2, 3)
     seqs = [s for d in range(1, depth + 1) for s in itertools.product(range(len(alphabet)), repeat=d)]
-    universes = ctx.pick(6, 40)
+    universes = ctx.pick(6, 160)
     for i, rng in ctx.cases("exhaustive", universes):
         lanelets, _ = lattice.gen_lanelets(rng, nmax=4)
         kinds = [("static", "dynamic-trajectory"), ("dynamic-trajectory", "dynamic-none"), ("static", "static")][i % 3]
@@ -322,7 +322,7 @@ def run(ctx):
             ctx.fingerprint(["ex", i, list(s)])
             run_history(rng, lanelets, obs, [alphabet[k] for k in s], "exhaustive")
     # -------------------------------------------------------------------------------------------- random histories
-    n = ctx.pick(120, 8000)
+    n = ctx.pick(120, 50000)
     for i, rng in ctx.cases("random", n):
         lanelets, _ = lattice.gen_lanelets(rng, nmax=6)
         obs = []
@@ -357,7 +357,7 @@ def run(ctx):
                                                                              type(o.obstacle_shape).__name__] for o in obs]})
         run_history(rng, lanelets, obs, hist, "random")
     # ------------------------------------------------------------ second route: file write + open(lanelet_assignment)
-    n = ctx.pick(40, 2000)
+    n = ctx.pick(40, 6000)
     for i, rng in ctx.cases("files", n):
         lanelets, _ = lattice.gen_lanelets(rng, nmax=5, types=True)
         sc = Scenario(0.1, ScenarioID(), author="a", tags={Tag.URBAN}, affiliation="b", source="c")
